@@ -22,6 +22,8 @@ LEVEL = "other"
 def run(chk):
     cfgs = ["base", "z"]
     chk.configs = cfgs
+    chk.rule("T.touching", "GetSegmentIntersection with an end point W on the line of the other segment (a, b): true exactly when W lies strictly between a "
+             "and b - all orderings, W = p1..p4, horizontal and vertical other segment in both directions (48 cells)")
     chk.rule("POLY.intersect", "GetSegmentIntersection: an end point stored as the intersection under `cross == 0` lies on both lines (identically, or by the "
              "guard's equation); the general case hands both segments to GetSegmentIntersectPt, whose result lies on both lines (polynomial normal forms)")
     chk.rule("BOUNDS.minmax", "GetBounds (behind the bounding-box shortcuts) updates min and max with every vertex, the first one included")
@@ -41,6 +43,7 @@ def run(chk):
         e3.bounds_update_table(db, chk, cfg)
         from ..engines import e14_poly as e14
         e14.rule_segment_cases(db, chk, cfg)
+        e3.touching_between_table(db, chk, cfg)
         e14.rule_intersect(db, chk, cfg)
         e3.rect_shortcuts(db, chk, cfg)
         e3.lines_shortcuts(db, chk, cfg)
